@@ -566,6 +566,58 @@ func checkC05(c *Check) {
 			}
 		}
 	})
+	if len(order) == 0 {
+		// table form: `for _, f := range []any{&m.A, &m.B, …} { binary.Read(buf, order, f) }` – the
+		// read order is the element order of the slice literal the loop ranges over
+		allInstrs(parse, func(in ssa.Instruction) {
+			call, ok := in.(*ssa.Call)
+			if !ok || !calleeIs(call, "encoding/binary", "Read") || len(call.Call.Args) != 3 || len(order) > 0 {
+				return
+			}
+			u, ok := resolve(call.Call.Args[2]).(*ssa.UnOp)
+			if !ok || u.Op != token.MUL {
+				return
+			}
+			ia, ok := u.X.(*ssa.IndexAddr)
+			if !ok {
+				return
+			}
+			var lit *ssa.Alloc
+			for d := range deps(ia.X, depOpts{}) {
+				if al, ok := d.(*ssa.Alloc); ok && al.Comment == "slicelit" {
+					lit = al
+				}
+			}
+			if lit == nil {
+				return
+			}
+			byIdx := map[int64]string{}
+			for _, ref := range *lit.Referrers() {
+				ea, ok := ref.(*ssa.IndexAddr)
+				if !ok {
+					continue
+				}
+				k, isC := constInt(ea.Index)
+				if !isC {
+					continue
+				}
+				for _, r2 := range *ea.Referrers() {
+					if st, ok := r2.(*ssa.Store); ok && st.Addr == ssa.Value(ea) {
+						if mi, ok := st.Val.(*ssa.MakeInterface); ok {
+							if fa, ok := mi.X.(*ssa.FieldAddr); ok {
+								byIdx[k] = structField(fa.X.Type(), fa.Field).Name()
+							}
+						}
+					}
+				}
+			}
+			for k := int64(0); k < int64(len(byIdx)); k++ {
+				if n, ok := byIdx[k]; ok {
+					order = append(order, n)
+				}
+			}
+		})
+	}
 	want := []string{"SessionID", "PacketID", "FragID", "FragCount"}
 	same := len(order) == len(want)
 	for i := range want {
